@@ -210,6 +210,75 @@ def fdhist_oracle(case, obs) -> list[tuple[str, str, int]]:
     return bad
 
 
+def fdhist_model_lines(case, obs) -> list[tuple[int, str]]:
+    """[(index of the call, protocol line)] for Driver/C13.lean (Model §7): `ainit`, then one `agrad` / `aopt` per call
+    as long as the model can follow in exact arithmetic (FirstOrderFD / CenteredDifferences; after a
+    compute_optimal_step the object's step is a rounded float: only calls with an explicit dyadic `step=` are compared;
+    a call refused by the sequential approximator ends the comparison)."""
+    if case["method"] not in ("fd", "centered") or obs.get("timeout"):
+        return []
+    rows = "|".join(",".join(str(v) for v in r) for r in case["coef"])
+    lines = [(-1, f"ainit {'F' if case['method'] == 'fd' else 'C'} {case['n_procs']} 1/{2 ** case['h_pow']} {rows} "
+                  f"{','.join(map(str, case['c0']))} {','.join(map(str, case['q']))}")]
+    step_known = True
+    for k, (op, seq) in enumerate(zip(case["ops"], obs["sequential"])):
+        if seq[0] != "returned":
+            break
+        sc, sh = op["kw"].get("scale", "1"), op["kw"].get("shift", "0")
+        x = ",".join(op["x"])
+        if op["op"] == "optstep":
+            if not step_known:
+                break  # the model's abstract step is not the float step: it cannot follow a second compute_optimal_step
+            lines.append((k, f"aopt {x} {sc} {sh}"))
+            step_known = False
+        else:
+            explicit = op.get("step_pow") is not None
+            if not (explicit or step_known):
+                continue  # the real call uses the rounded optimal steps; the model skips it (it changes no state but the kwargs, which every call overwrites)
+            idx = ",".join(map(str, op["indices"])) if op.get("indices") else "[]"
+            lines.append((k, f"agrad {x} {idx} {'1/' + str(2 ** op['step_pow']) if explicit else '_'} {sc} {sh}"))
+    return lines
+
+
+def _parse_rows(tok: str) -> list[list[Fraction]]:
+    return [[Fraction(v) for v in r.split(",")] if r not in ("", "[]") else [] for r in tok.split("|")]
+
+
+def fdhist_compare(case, obs, lines, answers) -> str | None:
+    """First difference between the real parallel approximator and the model, or None."""
+    h = Fraction(1, 2 ** case["h_pow"])
+    for (k, line), ans in zip(lines, answers):
+        if k < 0:
+            if ans != "ok":
+                return f"`{line}` -> {ans}"
+            continue
+        par = obs["parallel"][k]
+        parts = dict(t.split("=", 1) for t in ans.split(" ") if "=" in t)
+        if "res" not in parts:
+            return f"call {k + 1}: `{line}` -> {ans}"
+        if par[0] != "returned":
+            return f"call {k + 1}: `{line}`: the model returns {parts['res']}, the parallel approximator raised {par[1:]}"
+        res = _parse_rows(parts["res"])
+        op = case["ops"][k]
+        if op["op"] == "grad":
+            if not _exact_eq(par[1], res):
+                return (f"call {k + 1}: `{line}`: model Jacobian {parts['res']} (pool evaluations {parts.get('evals')}), "
+                        f"parallel approximator {par[1]}")
+        else:
+            f0, d2 = res[0], res[1:]
+            if len(f0) != 1:
+                continue  # several outputs: the worst case over the outputs depends on float ties; values left to the oracle
+            steps = par[1][0]
+            want = []
+            for row in d2:
+                hess = row[0] / (h * h)
+                want.append(h if abs(hess) < Fraction(1, 10 ** 10) else eps_ratio_sqrt(abs(f0[0]) / abs(hess)))
+            if not (len(steps) == len(want) and all(close(a, w) for a, w in zip(steps, want))):
+                return (f"call {k + 1}: `{line}`: the model's pool evaluates {parts.get('evals')} (f(x) = {f0[0]}, second differences "
+                        f"{[str(r[0]) for r in d2]}), i.e. optimal steps {[float(w) for w in want]}; parallel approximator {steps}")
+    return None
+
+
 def describe_fd_op(op) -> str:
     kw = ",".join(f"{k}={v}" for k, v in sorted(op["kw"].items())) or "no kwargs"
     if op["op"] == "optstep":
@@ -306,6 +375,7 @@ def shrink_fdhist(case, key: str):
 
 def check_fdhist_cases(res, cases: list[dict[str, Any]], deadline: float) -> None:
     shrunk: set[str] = set()
+    pending: list[tuple[dict, dict, list, bool]] = []
     for n_done, case in enumerate(cases):
         if time.time() > deadline:
             res.notes.append(f"fdhist: stopped at the time limit after {n_done} of {len(cases)} cases")
@@ -316,7 +386,6 @@ def check_fdhist_cases(res, cases: list[dict[str, Any]], deadline: float) -> Non
             res.extra.setdefault("unresolved_timeouts", []).append(f"fdhist: {obs['timeout']} [{describe_fdhist(case)}]"[:300])
             continue
         res.evaluations += 1
-        res.traces_validated += 0
         res.nontrivial(("fdhist", json.dumps(case, sort_keys=True)))
         res.count(f"fdhist-{case['method']}:{case['backend']}")
         res.count(f"fdhist:calls-per-approximator={len(case['ops'])}")
@@ -355,6 +424,25 @@ def check_fdhist_cases(res, cases: list[dict[str, Any]], deadline: float) -> Non
                     else:
                         rp = case
             res.violate("oracle", full, f"{msg} [{describe_fdhist(rp)}]"[:1100], {"kind": "fdhist", "case": rp})
+        lines = fdhist_model_lines(case, obs)
+        if lines:
+            pending.append((case, obs, lines, bool(bad)))
+    # correspondence: the same histories on the model (one driver call for all of them)
+    answers = common.run_lean_driver(PID, [ln for _, _, lines, _ in pending for _, ln in lines]) if pending else []
+    pos = 0
+    for case, obs, lines, had_bad in pending:
+        ans = answers[pos: pos + len(lines)]
+        pos += len(lines)
+        res.count("fdhist:model-compared-calls", len(lines) - 1)
+        diff = fdhist_compare(case, obs, lines, ans)
+        if diff is None:
+            res.traces_validated += 1
+            continue
+        res.disagreements += 1
+        if not had_bad:
+            res.violate("correspondence", "fdhist-model-vs-impl", f"approximator model and implementation disagree: {diff} [{describe_fdhist(case)}]"[:1100],
+                        {"kind": "fdhist", "case": case, "protocol_lines": [ln for _, ln in lines], "model_answers": ans, "difference": diff,
+                         "correspondence": "Driver/C13.lean ainit/agrad/aopt (Model §7 parStep on fdCfg)"})
 
 
 def replay_fdhist(case) -> int:
@@ -365,6 +453,12 @@ def replay_fdhist(case) -> int:
         return 0
     for k, (op, p, s) in enumerate(zip(case["ops"], obs["parallel"], obs["sequential"])):
         print(f"call {k + 1}: {describe_fd_op(op)}\n   parallel:   {p}\n   sequential: {s}")
+    lines = fdhist_model_lines(case, obs)
+    if lines:
+        ans = common.run_lean_driver(PID, [ln for _, ln in lines])
+        for (k, ln), a in zip(lines, ans):
+            print(f"   model: {ln} -> {a}")
+        print("model vs implementation:", fdhist_compare(case, obs, lines, ans) or "agree on every compared call")
     bad = fdhist_oracle(case, obs)
     for key, msg, _ in bad:
         print("ORACLE FAILS:", key, msg[:700])
@@ -397,7 +491,7 @@ def _dense(b):
     return (b.toarray() if hasattr(b, "toarray") else np.asarray(b)).tolist()
 
 
-def _mix_history(case, chain):
+def _mix_history(case, chain, ds=None):
     import numpy as np
 
     steps = []
@@ -419,6 +513,11 @@ def _mix_history(case, chain):
                 if same != jac:
                     jac = {"returned": jac, "chain.jac": same}
             steps.append({"status": "returned", "jac": jac, "data": {k: np.asarray(v).tolist() for k, v in chain.io.data.items()}})
+            if ds is not None:
+                # what the chain assembles from: the data and the Jacobian every discipline holds after the call
+                steps[-1]["discs"] = [{"data": {k: np.asarray(v).tolist() for k, v in d.io.data.items()},
+                                       "jac": None if jac is None else {o: {i: _dense(b) for i, b in row.items()} for o, row in (d.jac or {}).items()}}
+                                      for d in ds]
         except Exception as e:  # noqa: BLE001
             steps.append({"status": "raised", "error": f"{common.exc_class(e)}: {str(e)[:200]}"})
     return steps
@@ -429,9 +528,10 @@ def run_chainmix_case(case) -> dict[str, Any]:
     from gemseo.core.chains.parallel_chain import MDOParallelChain
 
     def par():
-        chain = MDOParallelChain(_mix_build(case, True), use_threading=case["backend"] == "thread", n_processes=case["n_procs"],
+        ds = _mix_build(case, True)
+        chain = MDOParallelChain(ds, use_threading=case["backend"] == "thread", n_processes=case["n_procs"],
                                  use_deep_copy=bool(case["deep"]))
-        return _mix_history(case, chain)
+        return _mix_history(case, chain, ds)
 
     out: dict[str, Any] = {"timeout": None}
     kind, val = guarded(par)
@@ -533,6 +633,95 @@ def chainmix_oracle(case, obs) -> list[tuple[str, str, int]]:
     if obs.get("timeout"):
         return []
     return chainmix_judge(case, obs["parallel"])
+
+
+def _scalar_block(blk, n: int):
+    """c when the block is c * I (exactly), else None."""
+    if not (isinstance(blk, list) and len(blk) == n and all(isinstance(r, list) and len(r) == n for r in blk)):
+        return None
+    c = blk[0][0]
+    if not common.is_finite_num(c):
+        return None
+    if all(common.is_finite_num(blk[r][k]) and blk[r][k] == (c if r == k else 0.0) for r in range(n) for k in range(n)):
+        return common.F(float(c))
+    return None
+
+
+def chainmix_model_lines(case, obs) -> list[tuple[int, str]]:
+    """One `cmerge` line per call (Model §8): the chain data and the requested Jacobian blocks assembled by the model
+    from what every discipline holds after the call (public `discipline.io.data`, `discipline.jac`)."""
+    if obs.get("timeout"):
+        return []
+    outs = sorted(mix_outputs(case))
+    oi = {o: k for k, o in enumerate(outs)}
+    ii = {i: k for k, i in enumerate(case["inputs"])}
+    lines = []
+    for k, (op, st, rq) in enumerate(zip(case["ops"], obs["parallel"], mix_requests(case))):
+        if st["status"] != "returned" or "discs" not in st:
+            continue
+        ds = []
+        ok = True
+        for d, seen in zip(case["discs"], st["discs"]):
+            names = list(d["outs"])
+            vals = []
+            for o in names:
+                v = seen["data"].get(o)
+                if not (isinstance(v, list) and v and common.is_finite_num(v[0])):
+                    ok = False
+                    break
+                vals.append(str(common.F(float(v[0]))))
+            if not ok:
+                break
+            if seen["jac"] is None or not seen["jac"]:
+                slot = "-"
+            else:
+                ents = []
+                for o, row in seen["jac"].items():
+                    if o not in oi:
+                        continue
+                    blocks = []
+                    for i, blk in row.items():
+                        c = _scalar_block(blk, case["size"])
+                        if i not in ii or c is None:
+                            ok = False
+                            break
+                        blocks.append(f"{ii[i]}={c}")
+                    ents.append(f"{oi[o]}>{','.join(blocks) or '-'}")
+                slot = "/".join(ents) or "-"
+            ds.append(f"{','.join(str(oi[o]) for o in names)}@{','.join(vals)}@{slot}")
+        if not ok:
+            continue
+        ro = ",".join(str(oi[o]) for o in rq[1]) if rq else "[]"
+        ri = ",".join(str(ii[i]) for i in rq[0]) if rq else "[]"
+        lines.append((k, f"cmerge {','.join(str(oi[o]) for o in outs)} {ro or '[]'} {ri or '[]'} {';'.join(ds)}"))
+    return lines
+
+
+def chainmix_compare(case, obs, lines, answers) -> str | None:
+    outs = sorted(mix_outputs(case))
+    for (k, line), ans in zip(lines, answers):
+        st = obs["parallel"][k]
+        parts = dict(t.split("=", 1) for t in ans.split(" ") if "=" in t)
+        if "data" not in parts or "blocks" not in parts:
+            return f"call {k + 1}: `{line}` -> {ans}"
+        for ent in parts["data"].split(";"):
+            o, v = ent.split(":")
+            got = st["data"].get(outs[int(o)])
+            if v == "_" or not (isinstance(got, list) and got and common.is_finite_num(got[0]) and common.F(float(got[0])) == Fraction(v)):
+                return f"call {k + 1}: chain data {outs[int(o)]} = {got}, the model assembles {v} from the disciplines' data (`{line}`)"
+        if parts["blocks"] == "[]":
+            continue
+        jac = st["jac"]["returned"] if isinstance(st["jac"], dict) and set(st["jac"]) == {"returned", "chain.jac"} else st["jac"]
+        for ent in parts["blocks"].split(";"):
+            pair, v = ent.split(":")
+            o, i = pair.split("/")
+            o, i = outs[int(o)], case["inputs"][int(i)]
+            got = (jac.get(o) or {}).get(i)
+            c = _scalar_block(got, case["size"]) if got is not None else None
+            if c is None or c != Fraction(v):
+                return (f"call {k + 1}: chain Jacobian block d{o}/d{i} = {got}, the model assembles {v} * I from the Jacobians the "
+                        f"disciplines returned (`{line}`)")
+    return None
 
 
 def describe_mix_op(case, op) -> str:
@@ -727,6 +916,7 @@ def mix_wellformed(case) -> bool:
 
 def check_chainmix_cases(res, cases: list[dict[str, Any]], deadline: float) -> None:
     shrunk: set[str] = set()
+    pending: list[tuple[dict, dict, list, bool]] = []
     for n_done, case in enumerate(cases):
         if time.time() > deadline:
             res.notes.append(f"chainmix: stopped at the time limit after {n_done} of {len(cases)} cases")
@@ -772,6 +962,24 @@ def check_chainmix_cases(res, cases: list[dict[str, Any]], deadline: float) -> N
                     else:
                         rp = case
             res.violate("oracle", full, f"{msg} [{describe_chainmix(rp)}]"[:1300], {"kind": "chainmix", "case": rp})
+        lines = chainmix_model_lines(case, obs)
+        if lines:
+            pending.append((case, obs, lines, bool(bad)))
+    answers = common.run_lean_driver(PID, [ln for _, _, lines, _ in pending for _, ln in lines]) if pending else []
+    pos = 0
+    for case, obs, lines, had_bad in pending:
+        ans = answers[pos: pos + len(lines)]
+        pos += len(lines)
+        res.count("chainmix:model-compared-calls", len(lines))
+        diff = chainmix_compare(case, obs, lines, ans)
+        if diff is None:
+            res.traces_validated += 1
+            continue
+        res.disagreements += 1
+        if not had_bad:
+            res.violate("correspondence", "chainmix-model-vs-impl", f"chain assembly model and implementation disagree: {diff} [{describe_chainmix(case)}]"[:1300],
+                        {"kind": "chainmix", "case": case, "protocol_lines": [ln for _, ln in lines], "model_answers": ans, "difference": diff,
+                         "correspondence": "Driver/C13.lean cmerge (Model §8 mergeData / mergeJac / chainBlock)"})
 
 
 def replay_chainmix(case) -> int:
@@ -787,6 +995,12 @@ def replay_chainmix(case) -> int:
         print(f"   sequential chain: {s.get('jac') if s['status'] == 'returned' else s['error']} data={s.get('data')}")
         if rq is not None:
             print("   closed form:      " + str({f"d{o}/d{i}": [[str(v) for v in r] for r in mix_block(case, o, i)] for o in rq[1] for i in rq[0]}))
+    lines = chainmix_model_lines(case, obs)
+    if lines:
+        ans = common.run_lean_driver(PID, [ln for _, ln in lines])
+        for (k, ln), a in zip(lines, ans):
+            print(f"   model, call {k + 1}: {ln} -> {a}")
+        print("model vs implementation:", chainmix_compare(case, obs, lines, ans) or "agree on every call")
     bad = chainmix_oracle(case, obs)
     for key, msg, _ in bad:
         print("ORACLE FAILS:", key, msg[:900])
